@@ -91,51 +91,55 @@ def pipeline(case):
             p = subprocess.run([env.PYTHON, script], cwd=cwd, env=envv, capture_output=True, text=True, timeout=900)
             return script, p.returncode, (p.stderr or "")[-400:]
 
-        first = [s for s in listed if s != LAST]
-        with concurrent.futures.ThreadPoolExecutor(max_workers=8) as ex:
-            res = list(ex.map(run, first))
-        failed = [(s, rc, err) for s, rc, err in res if rc != 0]
-        for s, rc, err in failed:
-            bad("import_script_failed", "%s exited with %d: %s" % (s, rc, err.strip().split("\n")[-1][:160]), script=s)
-        s, rc, err = run(LAST)
-        if rc != 0:
-            bad("import_script_failed", "%s exited with %d: %s" % (s, rc, err.strip().split("\n")[-1][:200]), script=s)
-        obs["scripts_run"] = len(first) + 1
-        obs["scripts_failed"] = len(failed) + (rc != 0)
-        # compare
-        import io
+        # the pipeline is run twice in the same tree: from the raw data alone (outputs deleted above), and once more on top of
+        # whatever the first run left behind (by-products, intermediate files): both must give the shipped tables
+        for attempt, again in ((1, ""), (2, " (second run in the same tree)")):
+            first = [s for s in listed if s != LAST]
+            with concurrent.futures.ThreadPoolExecutor(max_workers=8) as ex:
+                res = list(ex.map(run, first))
+            failed = [(s, rc, err) for s, rc, err in res if rc != 0]
+            for s, rc, err in failed:
+                bad("import_script_failed", "%s exited with %d%s: %s" % (s, rc, again, err.strip().split("\n")[-1][:160]), script=s, second_run=bool(again))
+            s, rc, err = run(LAST)
+            if rc != 0:
+                bad("import_script_failed", "%s exited with %d%s: %s" % (s, rc, again, err.strip().split("\n")[-1][:200]), script=s, second_run=bool(again))
+            obs["scripts_run"] = len(first) + 1
+            obs["scripts_failed"] = len(failed) + (rc != 0)
+            # compare
+            import io
 
-        import pandas as pd
+            import pandas as pd
 
-        same = 0
-        cells = 0
-        for rel, blob in shipped.items():
-            path = os.path.join(scratch, "data", "no_food_trade", rel)
-            if not os.path.exists(path):
-                bad("table_not_regenerated", "%s was not written by the pipeline" % rel, table=rel)
-                continue
-            new = open(path, "rb").read()
-            try:
-                cells += int(np.prod(pd.read_csv(io.BytesIO(blob)).shape))
-            except Exception:
-                pass
-            if new == blob:
-                same += 1
-                continue
-            # localise
-            a, b = pd.read_csv(io.BytesIO(blob)), pd.read_csv(io.BytesIO(new))
-            where = "shape %s vs %s" % (a.shape, b.shape)
-            if list(a.columns) != list(b.columns):
-                where = "columns differ: %s" % sorted(set(a.columns) ^ set(b.columns))[:5]
-            elif a.shape == b.shape:
-                neq = ~((a == b) | (a.isna() & b.isna()))
-                rows, cols = np.where(neq.values)
-                if len(rows):
-                    r0, c0 = int(rows[0]), int(cols[0])
-                    where = "%d cells differ, first at row %d (%s) column %s: shipped %r, regenerated %r" % (len(rows), r0, a.iloc[r0, 0], a.columns[c0], a.iloc[r0, c0], b.iloc[r0, c0])
-                else:
-                    where = "same parsed values, different bytes (formatting)"
-            bad("shipped_table_differs_from_pipeline_output", "%s: %s" % (rel, where), table=rel)
+            same = 0
+            cells = 0
+            for rel, blob in shipped.items():
+                path = os.path.join(scratch, "data", "no_food_trade", rel)
+                if not os.path.exists(path):
+                    bad("table_not_regenerated", "%s was not written by the pipeline%s" % (rel, again), table=rel, second_run=bool(again))
+                    continue
+                new = open(path, "rb").read()
+                try:
+                    cells += int(np.prod(pd.read_csv(io.BytesIO(blob)).shape))
+                except Exception:
+                    pass
+                if new == blob:
+                    same += 1
+                    continue
+                # localise
+                a, b = pd.read_csv(io.BytesIO(blob)), pd.read_csv(io.BytesIO(new))
+                where = "shape %s vs %s" % (a.shape, b.shape)
+                if list(a.columns) != list(b.columns):
+                    where = "columns differ: %s" % sorted(set(a.columns) ^ set(b.columns))[:5]
+                elif a.shape == b.shape:
+                    neq = ~((a == b) | (a.isna() & b.isna()))
+                    rows, cols = np.where(neq.values)
+                    if len(rows):
+                        r0, c0 = int(rows[0]), int(cols[0])
+                        where = "%d cells differ, first at row %d (%s) column %s: shipped %r, regenerated %r" % (len(rows), r0, a.iloc[r0, 0], a.columns[c0], a.iloc[r0, c0], b.iloc[r0, c0])
+                    else:
+                        where = "same parsed values, different bytes (formatting)"
+                bad("shipped_table_differs_from_pipeline_output" + ("_on_second_run" if again else ""), "%s%s: %s" % (rel, again, where), table=rel, second_run=bool(again))
+            obs["runs_of_the_pipeline"] = attempt
         obs.update(tables=len(shipped), tables_identical=same, cells_compared=cells, files_copied=ncopied)
         extra = [f for f in os.listdir(pdir) if f.endswith(".csv") and os.path.join("processed_data", f) not in shipped]
         if extra:
